@@ -200,6 +200,15 @@ ITEMS = [
     ("T", "", "x", ""),
     ("LNG", "u", "v" * 300, "d" * 300),
     ("MNEMONIC_LONGER_THAN_ANY_WIDTH_0123456789", "", "1", "x"),
+    ("KB", "ft(KB)", "12.5", "bracket at the end of a unit"),
+    ("TVD", "m[TVD]", "", "square bracket at the end of a unit"),
+    ("FRC", "(lbf)/ft", "3", "bracket at the start of a unit"),
+    ("CND", "1/(ohm.m)", "0.5", "brackets and a period inside a unit"),
+    ("TPL", "", "{0}", "format characters {0} %s %(x)d {} {"),
+    ("GUID", "%", "{WELL_NAME}", "PL{}/7"),
+    ("BRC", "", "{", "a lone brace } and a percent % sign"),
+    ("PATH", "", "C\\data\\run 1", "back\\slashes"),
+    ("HASH", "", "#3 bit", "a # inside ~ a value"),
     ("SERIAL", "", "9007199254740993", "2**53 + 1 - not a float"),
     ("I63", "", "9223372036854775807", "largest 64-bit integer"),
     ("N63", "", "-9223372036854775808", "smallest 64-bit integer"),
